@@ -297,7 +297,7 @@ def to_vspec(x):
 
 # ================================================================================================= fork server client
 class Server:
-    def __init__(self, workers=12, timeout=120):
+    def __init__(self, workers=12, timeout=300):
         env = dict(os.environ)
         env.pop("EINX_WARN_ON_RETRACE", None)
         env.pop("EINX_CACHE_SIZE", None)
